@@ -11,6 +11,8 @@ THEOREMS = [
     'Pysmi.Compile.C19_never_replaces',
     'Pysmi.Compile.C19_verbatim_borrow',
     'Pysmi.Compile.C19_verbatim_need',
+    'Pysmi.Borrower.C19_flavour',
+    'Pysmi.Borrower.C19_flavour_complete',
 ]
 TECHNIQUE = 'Lean 4 theorems about a model of MibCompiler.compile over abstract component oracles; differential correspondence (status map + full call trace) against the real compile() driven by scripted doubles; oracle search'
 LEVEL_TEXT = ('Proved in Lean for every borrower list, flavour/outcome assignment and option set: borrowers tried in order up to the first that delivers, its record used unchanged; borrower calls only about names in the failed set after code generation and eligible; explicitly requested names always eligible; borrowing never touches built/processed of other modules; the delivered record reaches built verbatim with status borrowed (and by C09_store_calls the writer). Tied to compile() by the trace correspondence; real AnyFileBorrower/PyFileBorrower flavour and extension handling is exercised on scratch directories.')
@@ -23,7 +25,68 @@ ASSUMPTIONS = [
 ]
 
 
+def real_borrowers(ctx):
+    """AbstractBorrower.getData on scratch directories: every flavour x genTexts value x extension variant."""
+    import os
+    import shutil
+    from common import scratch_dir
+    from pysmi.reader.localfile import FileReader
+    from pysmi.borrower.pyfile import PyFileBorrower
+    from pysmi.borrower.anyfile import AnyFileBorrower
+    from pysmi import error
+    res = ctx.res
+    reqs, metas = [], []
+    base = scratch_dir()
+    try:
+        layouts = [[], ['.py'], ['.json'], ['.py', '.json'], ['.txt'], ['']]
+        for li, held in enumerate(layouts):
+            d = os.path.join(base, 'l%d' % li)
+            os.makedirs(d)
+            for e in held:
+                with open(os.path.join(d, 'X-MIB' + e), 'w') as f:
+                    f.write('CONTENT' + e)
+            for cls, own in ((PyFileBorrower, None), (AnyFileBorrower, ['.json'])):
+                for flavour in (True, False):
+                    for g in ('absent', None, True, False):
+                        b = cls(FileReader(d), genTexts=flavour)
+                        if own is not None:
+                            b.setOptions(exts=own)
+                        own_exts = list(b.exts)
+                        opts = {} if g == 'absent' else {'genTexts': g}
+                        try:
+                            info, data = b.getData('X-MIB', **opts)
+                            got = {'ok': data[len('CONTENT'):]}
+                            verbatim = data.startswith('CONTENT')
+                        except error.PySmiError:
+                            got, verbatim = 'notFound', True
+                        want_flavour = bool(False if g in ('absent', None) else g) == flavour
+                        want = [e for e in own_exts if e in held]
+                        res.case((li, cls.__name__, flavour, g), True)
+                        res.count('real-borrower')
+                        if got != 'notFound' and not want_flavour:
+                            res.oracle_failures.append({'key': 'flavour', 'what': '%s(genTexts=%r) delivered for a request with genTexts=%r' % (
+                                cls.__name__, flavour, g), 'input': {'real': [held, cls.__name__, flavour, g]}})
+                        if want_flavour and want and got == 'notFound':
+                            res.oracle_failures.append({'key': 'flavour', 'what': '%s(genTexts=%r) refused a matching request genTexts=%r' % (
+                                cls.__name__, flavour, g), 'input': {'real': [held, cls.__name__, flavour, g]}})
+                        if not verbatim:
+                            res.oracle_failures.append({'key': 'verbatim', 'what': 'borrowed content altered', 'input': {'real': [held]}})
+                        r = {'op': 'borrow', 'flavour': flavour, 'ownExts': own_exts, 'heldExts': held}
+                        if g != 'absent':
+                            r['genTexts'] = g
+                        reqs.append(r)
+                        metas.append(((held, cls.__name__, flavour, g), got))
+    finally:
+        shutil.rmtree(base, ignore_errors=True)
+    if ctx.model is not None:
+        for (case, got), out in zip(metas, ctx.model.batch(reqs)):
+            if out != got:
+                res.corr_failures.append({'what': 'AbstractBorrower.getData differs from Model.Borrower.getData',
+                                          'case': case, 'impl': got, 'model': out})
+
+
 def run(ctx):
+    real_borrowers(ctx)
     n = 1200 if ctx.tier == 'quick' else 12000
     cc.run_stream(ctx, 'C19', n, 300 if ctx.tier == 'quick' else 3000)
 
@@ -33,4 +96,13 @@ def search(ctx):
 
 
 def replay(payload):
+    if 'real' in payload.get('input', {}):
+        class C:
+            pass
+        import common
+        ctx = C()
+        ctx.res = common.Result('C19', 'quick', 0)
+        ctx.model = None
+        real_borrowers(ctx)
+        return {'fails': bool(ctx.res.oracle_failures), 'what': [f['what'] for f in ctx.res.oracle_failures[:5]]}
     return cc.replay_scenario('C19', payload)
